@@ -11,6 +11,8 @@ use std::collections::{BTreeMap, HashSet};
 use std::sync::{Arc, Mutex};
 use std::time::{Duration, Instant};
 
+pub const DENSE_BATCH: usize = 100;
+
 pub struct Tier {
     pub name: &'static str,
     pub dense_runs: usize,
@@ -42,7 +44,7 @@ pub fn tier(name: &str) -> Tier {
         },
         _ => Tier {
             name: "quick",
-            dense_runs: env_usize("VERIF_DENSE_RUNS", 16_000),
+            dense_runs: env_usize("VERIF_DENSE_RUNS", 24_000),
             soak_runs: env_usize("VERIF_SOAK_RUNS", 48),
             runs: env_usize("VERIF_RUNS", 100_000),
             batch: 400,
@@ -125,6 +127,7 @@ pub struct Agg {
     pub stalled: u64,
     pub thread_exits_joined: u64,
     pub late_starts: u64,
+    pub library_yields: u64,
     pub clock_jumps: u64,
     pub panicking_calls: u64,
     pub at_exit_calls: u64,
@@ -197,6 +200,7 @@ impl Agg {
         self.stalled += r.stalled;
         self.thread_exits_joined += r.thread_exits_joined;
         self.late_starts += r.late_starts;
+        self.library_yields += r.library_yields;
         self.clock_jumps += r.clock_jumps;
         self.panicking_calls += r.panicking_calls;
         self.at_exit_calls += r.at_exit_calls;
@@ -324,11 +328,24 @@ pub struct RunSig {
     pub nondet: bool,
     pub trace: Option<Vec<(u8, u64)>>,
     pub callsigs: Option<Vec<(u64, u64)>>,
+    pub workload: Option<Vec<(u64, u64)>>,
 }
 
 /// Did the library take a different path for the same request in the two executions
 /// (or within one of them)?
 fn path_differs(a: &RunSig, b: &RunSig) -> Option<bool> {
+    // first: did any individual call (same thread, same operation, same request) do a
+    // different amount of work or take another path in the two executions?
+    if let (Some(wa), Some(wb)) = (a.workload.as_ref(), b.workload.as_ref()) {
+        let ma: std::collections::HashMap<u64, u64> = wa.iter().copied().collect();
+        for (k, v) in wb {
+            if let Some(x) = ma.get(k) {
+                if x != v {
+                    return Some(true);
+                }
+            }
+        }
+    }
     let (ca, cb) = (a.callsigs.as_ref()?, b.callsigs.as_ref()?);
     let mut m: std::collections::HashMap<u64, u64> = std::collections::HashMap::new();
     for (r, s) in ca.iter().chain(cb.iter()) {
@@ -403,7 +420,9 @@ pub fn explore(
         let list = list.clone();
         let _ = w;
         let sock = lanes.all();
-        let (batch, runs) = (t.batch, total_runs);
+        // dense batches are short: more worker processes, hence more cold starts, in the
+        // build that can switch threads inside one-time initialisations
+        let (batch, runs) = (if dense { DENSE_BATCH } else { t.batch }, total_runs);
         let trace_batches: Vec<usize> = trace_batches.to_vec();
         handles.push(std::thread::spawn(move || loop {
             let k = {
@@ -447,6 +466,7 @@ pub fn explore(
                                     nondet: r.nondet_window,
                                     trace: r.trace.clone(),
                                     callsigs: r.callsigs.clone(),
+                                    workload: r.workload.clone(),
                                 });
                             }
                             last_poisoned = r.deadlock
@@ -612,8 +632,8 @@ pub fn check(tier_name: &str, base_seed: u64) -> Outcome {
     // edge of every target crate is a possible scheduling point (windows without hook sites)
     let d0s = Instant::now();
     let dense_available = std::path::Path::new(crate::pool::DENSE_EXE).exists();
-    let dense_nb = t.dense_runs.div_ceil(t.batch);
-    let dense_redo: Vec<usize> = (0..dense_nb.min(env_usize("VERIF_DENSE_REDO_BATCHES", 2))).collect();
+    let dense_nb = t.dense_runs.div_ceil(DENSE_BATCH);
+    let dense_redo: Vec<usize> = (0..dense_nb.min(env_usize("VERIF_DENSE_REDO_BATCHES", 8))).collect();
     let exd = if dense_available && t.dense_runs > 0 {
         Some(explore(
             &lanes,
@@ -914,7 +934,7 @@ pub fn check(tier_name: &str, base_seed: u64) -> Outcome {
             if !seen_signatures.insert(sig) {
                 continue;
             }
-            let jobs = batch_jobs_x(dense_base(base_seed), *k, t.batch, t.dense_runs, true);
+            let jobs = batch_jobs_x(dense_base(base_seed), *k, DENSE_BATCH, t.dense_runs, true);
             let prefix: Vec<Job> = jobs[..*i].to_vec();
             let failing = jobs[*i].clone();
             println!(
@@ -1081,6 +1101,7 @@ pub fn check(tier_name: &str, base_seed: u64) -> Outcome {
                 "F10_caller_thread_exits_joined_before_token_moves_on": a.thread_exits_joined,
                 "F10_late_starter_after_another_thread_exited": a.late_starts,
                 "F11_simulated_clock_jumps": a.clock_jumps,
+                "library_yield_or_sleep_inside_a_call_turned_into_a_scheduling_point": a.library_yields,
                 "F2b_call_made_from_a_destructor_while_the_caller_unwinds": a.panicking_calls,
                 "F10b_call_registered_for_thread_local_destructor_at_thread_exit": a.at_exit_calls,
                 "F12_environment_reads_by_the_library_inside_calls": a.env_reads,
